@@ -382,7 +382,9 @@ own otherwise, and integrates from the scenario's start time to its stop time wi
 run specs are the scenario's; (3) **every** scenario of a manager carries `scenario ⊕ base` completed by the
 settings addressed to it — for all histories of registrations and settings on the manager's scenarios —
 and the manager's base values are never rewritten; (4) a run-spec override is taken over whenever its key is present —
-whatever its value, `starttime: 0` included (registration, scenario files, session settings go through `rsOver`). -/
+whatever its value, `starttime: 0` included (registration, scenario files, session settings go through `rsOver`);
+(5) application reaches evaluation: after any history of applied settings, evaluations and model-level resets, an
+evaluation reads every graphical function from the model's current points table — no derived copy survives a settings change. -/
 def C07_full (c : Cfg) : Prop :=
   (∀ (m : ModelSt) (s : Settings) (k : Nat),
     (applyTo c m s).const k = over (lastOf s.consts) m.const k ∧
@@ -392,7 +394,8 @@ def C07_full (c : Cfg) : Prop :=
   (∀ (mrs : RunSpec) (bc bp : Store) (ops : List MOp) (i : Nat),
     mview (mexec c mrs bc bp ops) i = msolo mrs bc bp i ops ∧
     (mexec c mrs bc bp ops).bc = bc ∧ (mexec c mrs bc bp ops).bp = bp) ∧
-  (∀ (r : RunSpec) (d : Dict), rsOver c r d = r.override d)
+  (∀ (r : RunSpec) (d : Dict), rsOver c r d = r.override d) ∧
+  (∀ (m : ModelSt) (ops : List EOp) (k : Nat), readPts c (eexec c m ops) k = (eexec c m ops).m.points k)
 
 theorem C07_partial (c : Cfg) (m : ModelSt) (s : Settings) (k : Nat) :
     (applyTo c m s).const k = over (lastOf s.consts) m.const k ∧
@@ -402,9 +405,10 @@ theorem C07_partial (c : Cfg) (m : ModelSt) (s : Settings) (k : Nat) :
 
 theorem C07_full_of_good (c : Cfg) (h : c.good = true) : C07_full c := by
   simp only [Cfg.good, Bool.and_eq_true] at h
-  refine ⟨fun m s k => ⟨get_update _ _ _, get_update _ _ _, ?_⟩, fun mrs files d => by simp [resolveFile, h.1.1.2],
-          fun mrs bc bp ops i => siblings_isolated c h.1.2 mrs bc bp ops i, fun r d => by simp [rsOver, h.2]⟩
-  simp [applyTo, h.1.1.1]
+  refine ⟨fun m s k => ⟨get_update _ _ _, get_update _ _ _, ?_⟩, fun mrs files d => by simp [resolveFile, h.1.1.1.2],
+          fun mrs bc bp ops i => siblings_isolated c h.1.1.2 mrs bc bp ops i, fun r d => by simp [rsOver, h.1.2],
+          fun m ops k => by simp [readPts, h.2]⟩
+  simp [applyTo, h.1.1.1.1]
 
 /-- `applied = effective` composed with the dict channel: scenario wins, base fills, model's own otherwise
 (for dictionaries without repeated keys `lastOf = get`; stated through `lastOf` of the completed store). -/
@@ -417,21 +421,21 @@ theorem C07_applied_dict (c : Cfg) (h : c.good = true) (m : ModelSt) (bc bp : St
 theorem C07_no_override (c : Cfg) (h : c.good = true) (m : ModelSt) :
     applyTo c m (resolveDict m.rs [] [] { consts := [], pts := [], start := none, stop := none, dt := none }) = m := by
   simp only [Cfg.good, Bool.and_eq_true] at h
-  simp [applyTo, resolveDict, Store.fill, Store.update, RunSpec.override, h.1.1.1]
+  simp [applyTo, resolveDict, Store.fill, Store.update, RunSpec.override, h.1.1.1.1]
 
 theorem C07_witness_start (c : Cfg) (h : c.runspecStartApplied = false) : ¬ C07_full c := by
   intro hf
   have := (hf.1 { eqs := [], pts := [], rs := ⟨0, 4, 1⟩ } { consts := [], pts := [], rs := ⟨1, 3, 1⟩ } 0).2.2
-  obtain ⟨a, b, o, q⟩ := c
+  obtain ⟨a, b, o, q, e⟩ := c
   simp only at h; subst h
-  revert this; cases b <;> cases o <;> cases q <;> decide
+  revert this; cases b <;> cases o <;> cases q <;> cases e <;> decide
 
 theorem C07_witness_file (c : Cfg) (h : c.fileRunspecsKept = false) : ¬ C07_full c := by
   intro hf
   have := hf.2.1 ⟨0, 4, 1⟩ [] { consts := [], pts := [], start := some 1, stop := some 3, dt := none }
-  obtain ⟨a, b, o, q⟩ := c
+  obtain ⟨a, b, o, q, e⟩ := c
   simp only at h; subst h
-  revert this; cases a <;> cases o <;> cases q <;> decide
+  revert this; cases a <;> cases o <;> cases q <;> cases e <;> decide
 
 /-- dictionary identity as a mechanism fact: when a scenario without an own block receives the manager's base
 dictionary itself, settings for one scenario rewrite the base values for a sibling registered BEFORE and
@@ -440,17 +444,33 @@ theorem C07_witness_shared_base (c : Cfg) (h : c.scenarioOwnsDicts = false) : ¬
   intro hf
   have := (hf.2.2.1 ⟨0, 4, 1⟩ [(0, 2)] []
     [.add 0 emptyDict, .add 1 emptyDict, .configure 1 { emptyDict with consts := [(0, 5)] }, .add 2 emptyDict] 0).1
-  obtain ⟨a, b, o, q⟩ := c
+  obtain ⟨a, b, o, q, e⟩ := c
   simp only at h; subst h
-  revert this; cases a <;> cases b <;> cases q <;> decide
+  revert this; cases a <;> cases b <;> cases q <;> cases e <;> decide
 
 /-- truthiness instead of presence: model start 1, override `starttime: 0` — the scenario keeps start 1 -/
 theorem C07_witness_falsy_override (c : Cfg) (h : c.overrideByPresence = false) : ¬ C07_full c := by
   intro hf
-  have := hf.2.2.2 ⟨1, 5, 2⟩ { emptyDict with start := some 0 }
-  obtain ⟨a, b, o, q⟩ := c
+  have := hf.2.2.2.1 ⟨1, 5, 2⟩ { emptyDict with start := some 0 }
+  obtain ⟨a, b, o, q, e⟩ := c
   simp only at h; subst h
-  revert this; cases a <;> cases b <;> cases o <;> decide
+  revert this; cases a <;> cases b <;> cases o <;> cases e <;> decide
+
+/-- a derived table that only `Model.reset_cache()` drops: evaluate, supply points `p0 := 7` as settings, evaluate — the
+second evaluation still reads the table built from the old points (3) -/
+theorem C07_witness_derived_table (c : Cfg) (h : c.evalReadsCurrent = false) : ¬ C07_full c := by
+  intro hf
+  have := hf.2.2.2.2 { eqs := [], pts := [(0, 3)], rs := ⟨0, 4, 2⟩ }
+    [.eval, .apply { consts := [], pts := [(0, 7)], rs := ⟨0, 4, 2⟩ }, .eval] 0
+  obtain ⟨a, b, o, q, e⟩ := c
+  simp only at h; subst h
+  revert this; cases a <;> cases b <;> cases o <;> cases q <;> decide
+
+/-- … and the model-level reset would have dropped it: with `.modelReset` before the second evaluation the new table is read -/
+example : ∀ a b o q, let c : Cfg := ⟨a, b, o, q, false⟩
+    readPts c (eexec c { eqs := [], pts := [(0, 3)], rs := ⟨0, 4, 2⟩ }
+      [.eval, .apply { consts := [], pts := [(0, 7)], rs := ⟨0, 4, 2⟩ }, .modelReset, .eval]) 0 = some 7 := by
+  intro a b o q; cases a <;> cases b <;> cases o <;> cases q <;> decide
 
 /-- with the fact, the channels as the code runs them are the channels the statement demands -/
 theorem resolveC_eq (c : Cfg) (h : c.overrideByPresence = true) (mrs : RunSpec) (bc bp : Store) (files : List FileEntry)
@@ -460,7 +480,7 @@ theorem resolveC_eq (c : Cfg) (h : c.overrideByPresence = true) (mrs : RunSpec) 
   simp [resolveDictC, resolveFileC, resolveSettingsC, rsOver, h, resolveDict, resolveFile, resolveSettings]
 
 /-- the same history, read at the late scenario and at the manager: all three are rewritten -/
-example : ∀ a b, let c : Cfg := ⟨a, b, false, true⟩
+example : ∀ a b, let c : Cfg := ⟨a, b, false, true, true⟩
     let st := mexec c ⟨0, 4, 1⟩ [(0, 2)] []
       [.add 0 emptyDict, .add 1 emptyDict, .configure 1 { emptyDict with consts := [(0, 5)] }, .add 2 emptyDict]
     ((mview st 0).map (·.consts), (mview st 2).map (·.consts), st.bc) = (some [(0, 5)], some [(0, 5)], [(0, 5)]) := by
@@ -469,7 +489,7 @@ example : ∀ a b, let c : Cfg := ⟨a, b, false, true⟩
 /-- Non-vacuity: base constants spread over two files, scenario overriding one of them, run specs given. -/
 example :
     let files : List FileEntry := [⟨[(0, 5), (1, 6)], [], []⟩, ⟨[(2, 7)], [(0, 9)], []⟩]
-    let s := resolveFile ⟨true, true, true, true⟩ ⟨0, 4, 2⟩ files { consts := [(1, 60)], pts := [], start := some 1, stop := none, dt := some 1 }
+    let s := resolveFile ⟨true, true, true, true, true⟩ ⟨0, 4, 2⟩ files { consts := [(1, 60)], pts := [], start := some 1, stop := none, dt := some 1 }
     (Store.get s.consts 0, Store.get s.consts 1, Store.get s.consts 2, Store.get s.pts 0, s.rs) =
       (some 5, some 60, some 7, some 9, ⟨1, 4, 1⟩) := by decide
 
@@ -490,6 +510,7 @@ example :
 #print axioms sibling_reads_base
 #print axioms C07_witness_shared_base
 #print axioms C07_witness_falsy_override
+#print axioms C07_witness_derived_table
 #print axioms resolveC_eq
 
 end Bptk.C07
